@@ -22,7 +22,7 @@ func tick() {
 	}
 }
 
-// alternatives for n possible results: all of them when n <= 8, else {0, 1, n-1}.
+// alternatives for n possible results: all of them when n <= 8, else {0, n-1, n/3, n/2}.
 func pick(site string, n int) int {
 	tick()
 	if n <= 0 {
@@ -32,16 +32,32 @@ func pick(site string, n int) int {
 		return 0
 	}
 	if n <= 8 {
-		return C.Choose(site, n)
+		c := C.Choose(site, n)
+		if c != 0 {
+			Deviated = true
+		}
+		return c
 	}
-	switch C.Choose(site, 3) {
+	switch C.Choose(site, 4) {
 	case 1:
-		return 1
-	case 2:
+		Deviated, Boundary = true, true
 		return n - 1
+	case 2:
+		Deviated = true
+		return n / 3
+	case 3:
+		Deviated = true
+		return n / 2
 	}
+	Boundary = true // the default answer 0 is an end of the range too
 	return 0
 }
+
+// Deviated: the current call made at least one non-default draw. Boundary: one of its draws on a
+// large range was an end of that range (0 or n-1). A call without boundary draw only drew values
+// from the interior of the large ranges (and anything from the small ones), where real draws fall
+// almost surely.
+var Deviated, Boundary bool
 
 func Intn(n int) int       { return pick("Intn", n) }
 func Int31n(n int32) int32 { return int32(pick("Int31n", int(n))) }
